@@ -599,6 +599,38 @@ fn run_product(rep: &mut Report, mode: Mode, tier: Tier) {
         rep.bounds["concurrent"] = json!({"threads": 8, "rounds": 4, "cases": n, "schedules": "free-running (sampled, not enumerated)"});
         rep.absorb(t);
     }
+    // thread life cycle: printing from the destructor of a thread-local while the thread exits,
+    // with the harness's thread-local registered before / after the thread's first print
+    {
+        let vals: Vec<RV> = vec![RV::Str("x\n".into()), RV::Arr(vec![RV::num("1"), RV::Obj(vec![("k".into(), RV::Arr(vec![]))])]), RV::Obj(vec![("a-key-longer-than-sixteen-bytes".into(), RV::Null)])];
+        let mut t = Tally::new();
+        for rv in &vals {
+            for hook_first in [true, false] {
+                for warm in [true, false] {
+                    t.evals += 1;
+                    let real = bridge::to_value(rv);
+                    let warm_real = real.clone();
+                    let want = (rp::compact(rv), real.pretty_print().to_string());
+                    let got = explore::run_at_thread_exit(
+                        hook_first,
+                        move || {
+                            if warm {
+                                let _ = warm_real.to_string();
+                                let _ = warm_real.pretty_print().to_string();
+                            }
+                        },
+                        move || (real.to_string(), real.pretty_print().to_string()),
+                    );
+                    if got.as_ref() != Ok(&want) {
+                        t.violation("", format!("printing {} from a thread-local destructor at thread exit (hook registered {} the first print, thread {}) gives {got:?}", rv.show(), if hook_first { "before" } else { "after" }, if warm { "had printed before" } else { "had not printed before" }), case(rv, &Opts::pretty()));
+                    }
+                }
+            }
+        }
+        t.outcome("printing at thread exit");
+        rep.bounds["thread-exit"] = json!({"values": vals.len(), "hook_order": 2, "thread_had_printed": 2});
+        rep.absorb(t);
+    }
     // a destination that fails: printing into a writer that accepts only k bytes (every k below
     // the length of the output) must report the error, and the next print on the same thread
     // must be unaffected by whatever the failed one left behind
@@ -882,7 +914,39 @@ fn c08_value(rv: &RV, t: &mut Tally) {
     }
 }
 
+/// C08 at thread exit: compact printing from the destructor of a thread-local.
+fn c08_thread_exit(rep: &mut Report) {
+    let vals: Vec<RV> = vec![RV::Str("x\n\u{1}".into()), RV::Arr(vec![RV::num("1"), RV::Obj(vec![("k".into(), RV::Arr(vec![]))])]), RV::Obj(vec![("a-key-longer-than-sixteen-bytes".into(), RV::Null)])];
+    let mut t = Tally::new();
+    for rv in &vals {
+        for hook_first in [true, false] {
+            for warm in [true, false] {
+                t.evals += 1;
+                let real = bridge::to_value(rv);
+                let warm_real = real.clone();
+                let want = rp::compact(rv);
+                let got = explore::run_at_thread_exit(
+                    hook_first,
+                    move || {
+                        if warm {
+                            let _ = warm_real.to_string();
+                        }
+                    },
+                    move || (real.to_string(), real.compact_print().to_string(), String::from(real.clone())),
+                );
+                if got.as_ref() != Ok(&(want.clone(), want.clone(), want.clone())) {
+                    t.violation("", format!("compact printing of {} from a thread-local destructor at thread exit (hook registered {} the first print, thread {}) gives {got:?}", rv.show(), if hook_first { "before" } else { "after" }, if warm { "had printed before" } else { "had not printed before" }), json!({"kind": "compact", "value": rv.show()}));
+                }
+            }
+        }
+    }
+    t.outcome("compact printing at thread exit");
+    rep.bounds["thread-exit"] = json!({"values": vals.len(), "hook_order": 2, "thread_had_printed": 2});
+    rep.absorb(t);
+}
+
 fn run_c08(rep: &mut Report, tier: Tier) {
+    c08_thread_exit(rep);
     // every Unicode scalar value as a one-character string, as key and value, and in an array
     let blocks: Vec<u32> = (0..0x110000u32 / 0x400).collect();
     let t = explore::par_tally(blocks, |b, t| {
